@@ -2,6 +2,7 @@
   C10 — Group allow/deny lists are enforced on every path.  Property theorems only.
   Regexp matching is a parameter (oracle bits computed by the harness with Go's regexp).
 -/
+import BurrowVerif.Model.StorageConf
 import BurrowVerif.Proofs.Accept
 import BurrowVerif.Proofs.Notifier
 import BurrowVerif.Model.ZkReader
@@ -139,5 +140,33 @@ theorem zk_reader_rewalk_is_complete (s : ZkReader.St) (e : Entry) (v : Int) (hs
   constructor <;> apply hmem <;> simp [forwardOne, hacc, hp]
 
 end ZkReader
+
+
+/-! ### which lists the storage module is given (its `Configure`, tied by the `S sconf` ops, which run it) -/
+
+section StorageConf
+open Burrow.StorageConf
+
+/-- **a group is tracked exactly when it matches the module's own allowlist (if one is set) and not its
+    denylist (if one is set)** — for the lists `Configure` compiles from the module's table -/
+theorem storage_accepts_iff (s : Spec) (g : String) :
+    s.accepts g = true ↔
+      (∀ m, s.allow.list = some m → m g = true) ∧ (∀ m, s.deny.list = some m → m g = false) := by
+  unfold Spec.accepts
+  cases ha : s.allow.list <;> cases hd : s.deny.list <;> simp
+
+/-- **"if one is set"**: a list key that is absent, or present with the empty string (as the shipped
+    configuration files write it), sets no list — with neither list every group is tracked -/
+theorem empty_string_sets_no_list (s : Spec) (g : String)
+    (ha : s.allow = .absent ∨ s.allow = .empty) (hd : s.deny = .absent ∨ s.deny = .empty) : s.accepts g = true := by
+  unfold Spec.accepts
+  rcases ha with ha | ha <;> rcases hd with hd | hd <;> simp [ha, hd, ListKey.list]
+
+example : ({ intervals := none, expireGroup := none, minDistance := none, workers := none, queueDepth := none,
+             allow := .pattern (· == "g0"), deny := .empty } : Spec).accepts "g0" = true ∧
+          ({ intervals := none, expireGroup := none, minDistance := none, workers := none, queueDepth := none,
+             allow := .pattern (· == "g0"), deny := .empty } : Spec).accepts "g1" = false := by decide
+
+end StorageConf
 
 end Burrow.Props.C10
